@@ -50,6 +50,54 @@ def _val_spec(cfg, i, path):
     return r == str(i['n'])
 
 
+# ------------------------------------------------------------------ the LIMIT section as each builder renders it: the window the text denotes is the window that was asked for
+def _lim_configs(tier):
+    return [dict(dialect=d, limit=l, offset=o, order=od) for d in ('generic', 'PostgreSQL', 'MySQL', 'SQLite', 'Oracle') for l in (None, 0, 1, 3, 7) for o in (None, 0, 2, 5) for od in (False, True)
+            if not (l is None and o is None)]
+
+
+def _window_of(dialect, sql):
+    """(first row skipped, rows kept or None) read off the rendered text - the documented meaning of LIMIT / OFFSET and of Oracle's ROWNUM idiom"""
+    import re
+    t = ' '.join(sql.split())
+    if dialect != 'Oracle':
+        m = re.search(r' LIMIT (-?\d+|null)(?: OFFSET (\d+))?$', t)
+        if not m: return None
+        lim = None if m.group(1) in ('null', '-1', '18446744073709551615') else int(m.group(1))
+        return (int(m.group(2) or 0), lim)
+    upper = re.search(r'WHERE ROWNUM <= (-?\d+)', t); lower = re.search(r'WHERE "row-num" > (\d+)', t)
+    if not upper and not lower: return (0, None)
+    off = int(lower.group(1)) if lower else 0
+    if upper is None: return (off, None)
+    return (off, max(0, int(upper.group(1)) - off))
+
+
+def _lim_case(cfg, values):
+    def call():
+        cls, prov = c35._builder(cfg['dialect'])
+        limit = cfg['limit']
+        if limit is None: limit = {'SQLite': -1, 'MySQL': 18446744073709551615}.get(cfg['dialect'])          # what construct_sql_ast puts there for 'no limit' (its own contract, C24)
+        sec = ['LIMIT', limit] + ([cfg['offset']] if cfg['offset'] else [])
+        ast = ['SELECT', ['ALL', ['COLUMN', 'T', 'a']], ['FROM', ['T', 'TABLE', 'tbl']]] + ([['ORDER_BY', ['COLUMN', 'T', 'a']]] if cfg['order'] else []) + [sec]
+        return cls(prov, ast).sql
+    return Case(call, {}, [])
+
+
+def _lim_spec(cfg, i, path):
+    if path.outcome != 'ret': return False
+    w = _window_of(cfg['dialect'], path.value)
+    if w is None: return False
+    rows = list(range(20))
+    off = cfg['offset'] or 0
+    want = rows[off:] if cfg['limit'] is None else rows[off:off + cfg['limit']]
+    got = rows[w[0]:] if w[1] is None else rows[w[0]:w[0] + w[1]]
+    if cfg['order'] and cfg['dialect'] == 'Oracle':
+        import re
+        m = re.search(r'WHERE (ROWNUM|"row-num")', path.value)
+        if m and path.value.index('ORDER BY') > m.start(): return False          # the rows are numbered after they were ordered: the ORDER BY sits inside the numbered subquery
+    return got == want
+
+
 def _pick(mod, ids):
     return [c for c in mod.CONTRACTS if c.id in ids]
 
@@ -60,7 +108,10 @@ CONTRACTS = (_pick(c01, ['truth_test_and_not', 'CmpMonad.negate'])
              + _pick(c24, ['construct_sql_ast.LIMIT'])
              + _pick(c35, ['SELECT_FOR_UPDATE'])               # locking form of a query per dialect: the same rows in the same order (Oracle rewrites ROWNUM windows), shared with C35
              + _pick(c29, ['ArrayMixin.__getitem__'])          # array subscripts and slices per dialect (1-based PostgreSQL arithmetic), shared with C29
-             + [Contract('Value.__str__.scalars', ['pony.orm.sqlbuilding:Value.__str__', 'pony.orm.dbproviders.postgres:PGValue.__str__'], _val_configs, _val_case,
+             + [Contract('LIMIT_section_rendering', ['pony.orm.sqlbuilding:SQLBuilder.LIMIT', 'pony.orm.dbproviders.oracle:OraBuilder.SELECT'], _lim_configs, _lim_case,
+                         [('the_rendered_window_is_the_window_asked_for', _lim_spec)], level='bounded',
+                         bound='5 builders x limits None / 0 / 1 / 3 / 7 x offsets None / 0 / 2 / 5 x with / without ORDER BY; the text is read by the documented meaning of LIMIT / OFFSET / ROWNUM'),
+                Contract('Value.__str__.scalars', ['pony.orm.sqlbuilding:Value.__str__', 'pony.orm.dbproviders.postgres:PGValue.__str__'], _val_configs, _val_case,
                          [('booleans_null_and_integers_rendered_per_dialect', _val_spec)]),
                 Contract('dialect_string_functions', ['pony.orm.sqlbuilding:SQLBuilder.TRIM', 'pony.orm.sqlbuilding:SQLBuilder.LTRIM', 'pony.orm.sqlbuilding:SQLBuilder.RTRIM',
                                                       'pony.orm.sqlbuilding:SQLBuilder.CONCAT', 'pony.orm.sqlbuilding:SQLBuilder.REPLACE', 'pony.orm.dbproviders.mysql:MySQLBuilder.TRIM',
